@@ -421,11 +421,8 @@ impl SvgElement {
             self.eval_text_anchor(ctx)?;
         }
 
-        self.eval_rel_position(ctx)?;
-        // Compound attributes, e.g. xy="#o 2" -> x="#o 2", y="#o 2"
-        self.expand_compound_pos();
-        self.eval_rel_attributes(ctx)?;
-
+        // (references inside points / path data first: the size of the shape, which
+        // placing it next to something needs, comes from them)
         if let ("polyline" | "polygon", Some(points)) =
             (self.name.as_str(), self.get_attr("points"))
         {
@@ -434,6 +431,11 @@ impl SvgElement {
         if let ("path", Some(d)) = (self.name.as_str(), self.get_attr("d")) {
             self.set_attr("d", &expand_relspec(&d, ctx));
         }
+
+        self.eval_rel_position(ctx)?;
+        // Compound attributes, e.g. xy="#o 2" -> x="#o 2", y="#o 2"
+        self.expand_compound_pos();
+        self.eval_rel_attributes(ctx)?;
 
         let mut p = Position::from(self as &SvgElement);
         if matches!(self.name.as_str(), "polyline" | "polygon" | "path") {
@@ -1468,8 +1470,8 @@ impl SvgElement {
             "use" => {
                 // Need to determine top-left corner of the target bbox which
                 // may not be (0, 0), and offset by the equivalent amount.
-                if let Some(bbox) = self.get_target_element(ctx)?.bbox()? {
-                    let (dx, dy) = bbox.locspec(LocSpec::TopLeft);
+                // (of what it refers to directly: a `use` of a `use` is moved by both)
+                if let Some((dx, dy)) = self.use_target_origin(ctx)? {
                     self.set_attr("x", &fstr(x - dx));
                     self.set_attr("y", &fstr(y - dy));
                 }
@@ -1629,20 +1631,27 @@ impl SvgElement {
         // before this point as xy is not considered a compound attribute in that case.
         if let Some(xy) = self.pop_attr("xy") {
             let (x, y) = Self::split_compound_attr(&xy);
+            // (the start of a line is x1 / y1; for anything else that is x / y)
+            let (x1, y1) = match self.name.as_str() {
+                "line" => ("x1", "y1"),
+                _ => ("x", "y"),
+            };
             let (x_attr, y_attr) = match self.pop_attr("xy-loc").as_deref() {
-                Some("t") => ("cx", "y1"),
-                Some("tr") => ("x2", "y1"),
+                Some("t") => ("cx", y1),
+                Some("tr") => ("x2", y1),
                 Some("r") => ("x2", "cy"),
                 Some("br") => ("x2", "y2"),
                 Some("b") => ("cx", "y2"),
-                Some("bl") => ("x1", "y2"),
-                Some("l") => ("x1", "cy"),
+                Some("bl") => (x1, "y2"),
+                Some("l") => (x1, "cy"),
                 Some("c") => ("cx", "cy"),
                 _ => ("x", "y"),
             };
             self.attrs.insert_first(x_attr, x);
             self.attrs.insert_first(y_attr, y);
         }
+        // (xy-loc says which point of the element `xy` places: without one it says nothing)
+        self.pop_attr("xy-loc");
         if let Some(cxy) = self.pop_attr("cxy") {
             let (cx, cy) = Self::split_compound_attr(&cxy);
             self.attrs.insert_first("cx", cx);
